@@ -159,6 +159,8 @@ pub mod bridge;
 pub mod capability;
 pub mod command;
 pub mod testing;
+#[cfg(crux_verif)]
+pub mod verif;
 #[cfg(feature = "typegen")]
 pub mod typegen;
 
